@@ -122,6 +122,17 @@ func RunC19(c *Ctx) {
 			simple("HandleObjectValues(declining handler)", func(d []byte) error { _, e := rjson.HandleObjectValues(d, noh, warm); return e }),
 			simple("HandleArrayValues(skipping handler)", func(d []byte) error { _, e := rjson.HandleArrayValues(d, sah, warm); return e }),
 			simple("HandleObjectValues(skipping handler)", func(d []byte) error { _, e := rjson.HandleObjectValues(d, soh, warm); return e }),
+			// the handler skips with the TRAVERSAL'S OWN Buffer (the documented re-entrant sharing); the
+			// Buffer has been used on this very document by the SkipValue probe above (seeded change
+			// C19r6-m1: the stack detached from the Buffer while a traversal runs)
+			simple("HandleArrayValues(skipping handler sharing the traversal's Buffer)", func(d []byte) error {
+				_, e := rjson.HandleArrayValues(d, skipArrayHandler{warm}, warm)
+				return e
+			}),
+			simple("HandleObjectValues(skipping handler sharing the traversal's Buffer)", func(d []byte) error {
+				_, e := rjson.HandleObjectValues(d, skipObjectHandler{warm}, warm)
+				return e
+			}),
 		},
 		"string": {
 			{"ReadStringBytes", func(d []byte) (func() error, bool) {
